@@ -250,7 +250,11 @@ func (gb GenBank) String() string {
 	for _, ref := range gb.Fields.References {
 		b.WriteString(fmt.Sprintf("REFERENCE   %d", ref.Number))
 		if ref.Info != "" {
-			pad := strings.Repeat(" ", 3-len(strconv.Itoa(ref.Number)))
+			padLength := 3 - len(strconv.Itoa(ref.Number))
+			if padLength < 0 {
+				padLength = 0
+			}
+			pad := strings.Repeat(" ", padLength)
 			b.WriteString(pad + ref.Info)
 		}
 		b.WriteByte('\n')
